@@ -151,6 +151,9 @@ func Returns(fn *ssa.Function) []*ssa.Return {
 // Calls lists all call instructions (call, go, defer) of fn in block order.
 func Calls(fn *ssa.Function) []ssa.CallInstruction {
 	var out []ssa.CallInstruction
+	if fn == nil {
+		return nil // an unresolved role: the caller reports it
+	}
 	for _, b := range fn.Blocks {
 		for _, in := range b.Instrs {
 			if c, ok := in.(ssa.CallInstruction); ok {
